@@ -9,7 +9,7 @@ DESIGN section 3, C13.
 import json
 import math
 
-from .common import BaseHooks, V, finite, is_qmat, logspace_sigma, np, qalg, round_sig, sub_rng
+from .common import BaseHooks, V, finite, is_qmat, cluster_sigma, logspace_sigma, np, qalg, round_sig, sub_rng
 
 PROP = "C13"
 WORLDS_QUICK = ("pkg", "flat")
@@ -37,9 +37,15 @@ def gen_trace(seed, world, tier, mode=None):
         # mid-size problems with the DEFAULT sketch widths (block 16, test sketch 8): the only
         # place where the defaults are narrower than the matrix
         m, n = R.randint(17, 22), R.randint(9, 20)
+    plateau = kind == "cgne" and not midsize and R.random() < 0.25
+    if plateau:
+        # directed at CG plateaus: a cluster of singular values plus one small one, large enough
+        # (n >= 8) for the plateau to last several iterations, generous budget
+        n = R.randint(8, 12)
+        m = n + R.randint(0, 3)
     # a few requests in the wrong orientation: the documented answer is a loud rejection
     # (judged by C20); if a solver answers instead, its flag must be sound for that input too
-    wrong = R.random() < 0.06
+    wrong = R.random() < 0.06 and not plateau
     if kind in ("rsp_colvar", "hybrid", "cgne", "cgne_prec") and (m < n) != wrong:
         m, n = n, m
     if kind == "rsp_rowvar" and (m > n) != wrong:
@@ -47,8 +53,13 @@ def gen_trace(seed, world, tier, mode=None):
     wrong = wrong and m != n and kind in ("rsp_colvar", "rsp_rowvar", "hybrid", "cgne", "cgne_prec")
     k = min(m, n)
     cond = 10.0 ** R.choice([0, 1, 1, 2, 3])
+    # spectrum: log-uniform, or (20 %) a cluster plus one small value - where CG-type
+    # iterations plateau for as many steps as the cluster has members
+    spec_fn = cluster_sigma if (R.random() < 0.2 or plateau) else logspace_sigma
+    if plateau:
+        cond = R.choice([1e3, 1e3, 3e2])
     A = {"gen": "psvd", "m": m, "n": n, "seed": R.randrange(10 ** 6),
-         "sigma": [round_sig(v) for v in logspace_sigma(R, k, cond)]}
+         "sigma": [round_sig(v) for v in spec_fn(R, k, cond)]}
     sc = R.choice([0, 0, 0, 0, -3, 3, -6, 6, -9, 9])     # "for all full-rank inputs": any uniform scale
     if sc:
         A = {"gen": "scale", "of": A, "c": 10.0 ** sc}
@@ -94,7 +105,9 @@ def gen_trace(seed, world, tier, mode=None):
     else:
         cfg = {"tol": tol, "max_iter": R.choice([budget, 500]),
                "preconditioner_rank": 0 if kind == "cgne" else R.randint(1, n)}
-        if kind == "cgne" and not wrong and not midsize and cond <= 10 and R.random() < 0.4:
+        if plateau:
+            cfg["max_iter"] = 500
+        if kind == "cgne" and not wrong and not midsize and not plateau and cond <= 10 and R.random() < 0.4:
             # the tightest budget that provably suffices: CG terminates after as many steps as
             # there are distinct singular values (1 for an isometry; n + 2 leaves rounding room,
             # 0 failures in 6000 trials on the unchanged tree)
